@@ -202,6 +202,28 @@ def _scorer_harness(sym, scorer, n, p, cut):
             for j in range(got.shape[1]):
                 _equal(eng, acc, "reverse.value_of_mirrored_cut", got[0, j], ref[0, j], dict(info, col=j, mirrored=list(mirror(cut, n))))
         acc.sample(dict(info, value=str(z3.simplify(rv(ref[0, 0])))[:120] if ref is not None else "RuntimeError"))
+        if ref is not None and acc.total("witness_tried") < 30:
+            # float witness of the untransformed run: symbolic term at a model of the path vs the native scorer
+            from symnp.witness import FloatEval, close, robust_model
+            from .common import model_env, model_matrix
+            acc.inc("witness_tried")
+            model, _ = robust_model(eng)
+            if model is not None:
+                env = model_env(model)
+                Xf = model_matrix(model, n, p)
+                for i in range(n):
+                    for j in range(p):
+                        env[f"x_{i}_{j}"] = Xf[i, j]
+                fe = FloatEval(env, eng)
+                try:
+                    with proxy.native():
+                        nat = make().fit(Xf).evaluate(np.array([list(cut)]))
+                    if all(close(float(nat[0, j]), float(fe(rv(ref[0, j]))), 1e-6, 1e-6) for j in range(nat.shape[1])):
+                        acc.inc("witness_ok")
+                    else:
+                        acc.error(f"C12 witness mismatch {scorer} cut {cut}: native {nat.tolist()}")
+                except RuntimeError:
+                    pass
 
     return Harness(run, base, sliced=True, timeout_ms=15000 if n <= 4 else 45000, name=f"{sym} {scorer} {cut}")
 
